@@ -4,6 +4,12 @@ import json, os, subprocess, sys
 ROOT = os.path.dirname(os.path.dirname(os.path.abspath(__file__)))
 
 CLAIMED = {
+ "C14": ("exploration", "property-based round-trip testing (proptest) over a zoo of 29 serializable object kinds with field-by-field equality, exact size / framing and cross-context oracles",
+         "Generated-input search: objects of every serializable type are built through the public API in varied states (seeded or expanded, sizes 2..3, lower level, either representation, empty to 3x3x3 containers, random / empty / full / unordered term subsets) under parameter sets whose primes occupy 1..8 bytes. The announced size must equal the bytes written and the bytes consumed when the object sits between neighbours in one stream; the restored object must equal the original (its seed-expanded form; for the selected-terms format the first polynomial restricted to the chosen coefficients) in the same context and in one rebuilt from the serialized parameters; later operations must be bit-identical.",
+         "Trusted: equality over all public fields and data words; expected term-restricted form computed with the library's NTT (C09).", "DESIGN.md §6 C14"),
+ "C15": ("fault_enumeration", "fault injection: generated faulty writers (short writes, hard failures, full-buffer Ok(0), Interrupted) and exhaustive truncation offsets over every serializable type, with an error-or-complete oracle",
+         "Fault enumeration: for every object kind of C14 each generated writer (cyclic per-call acceptance limits 1..8, optional failure or buffer-full point, optional EINTR) must either receive the complete reference encoding with the full count returned, or the call must return an error; every strict prefix of every encoding (all offsets up to 4 KiB, boundaries plus samples above) must deserialize to an error, never to an object and never panic. The pinned defect (Write::write with ignored count, read_exact unwrap) was found this way and fixed.",
+         "Trusted: only the fault classes named in the statement; writers obey the std::io::Write contract.", "DESIGN.md §6 C15"),
  "C13": ("exploration", "property-based testing (proptest) + exhaustive small-parameter universe against an independently coded validity predicate, big-integer definitions of the precomputed constants and cross-context identifier agreement",
          "Generated-input search over every kind of parameter object the builder lets through (invalid schemes and degrees, composite / duplicate / even / oversized moduli, inadmissible plain moduli, standard security levels, both flags) plus the full universe N in {2,4,8} x moduli <= 24 (thorough 64). HeContext::new must never panic; parameters_set must imply the mathematical preconditions on every level; rejected sets must carry a specific error; accepted chains are checked for link structure, prefix moduli, constants (Q, Q div t, Q mod t, thresholds, increments) against big integers, qualifier flags, identifier equality across independently built contexts and collision freedom; the moduli generators are checked with a deterministic primality test. One known finding (randomized acceptance for composite moduli = 1 mod 2N) is reported as KNOWN-FINDING and excluded by construction.",
          "Trusted: refmath (deterministic Miller-Rabin), BigU. Only the soundness direction is asserted for arbitrary objects.", "DESIGN.md §6 C13"),
